@@ -28,6 +28,26 @@ def jobs(pid, tier):
         J.append(Job('k7_swap', dict(N=4, L=2, x=0, K=2), need_outcomes=['swapped']))
         J.append(Job('k7_swap', dict(N=4, L=3, x=0, K=2), need_outcomes=['swapped']))
         J.append(Job('k7_swap', dict(N=4, L=3, x=1, K=2, by='name'), need_outcomes=['swapped']))
+    if pid == 'C03':
+        J.append(Job('quant', dict(N=4, L=2), need_outcomes=['returned:' + e for e in
+                     ('quantify_names', 'quantify_levels', 'exist_forall', 'apply')]))
+        if q:
+            J.append(Job('quant', dict(N=5, L=3, maxq=1, entries=['quantify_names']),
+                         need_outcomes=['returned:quantify_names']))
+        else:
+            J.append(Job('quant', dict(N=6, L=3), need_outcomes=['returned:quantify_names']))
+    if pid == 'C04':
+        J.append(Job('let', dict(N=4, L=2), need_outcomes=['returned:' + e for e in
+                     ('cofactor', 'compose1', 'compose2', 'rename', 'empty')]))
+        J.append(Job('let', dict(N=4 if q else 5, L=3, kinds=['cofactor', 'compose1', 'rename']),
+                     need_outcomes=['returned:cofactor', 'returned:compose1', 'returned:rename']))
+        if not q:
+            J.append(Job('let', dict(N=5, L=3, kinds=['compose2']), need_outcomes=['returned:compose2']))
+    if pid == 'C10':
+        J.append(Job('sat', dict(N=4, L=2), need_outcomes=['returned:' + e for e in
+                     ('support', 'essential', 'count', 'pick_iter', 'pick')]))
+        J.append(Job('sat', dict(N=4 if q else 5, L=3), need_outcomes=['returned:' + e for e in
+                     ('support', 'essential', 'count', 'pick_iter', 'pick')]))
     return J
 
 
